@@ -35,7 +35,11 @@ def run(chk):
     for _ in range(N):
         n = int(rng.integers(2, 9))
         rows = int(rng.integers(2, 8))
-        kind = ["Identity", "SVD", "SVD", "SVD-arpack", "RandomProjection", "RandomProjection", "Custom"][int(rng.integers(0, 7))]
+        kind = ["Identity", "SVD", "SVD", "SVD-arpack", "RandomProjection", "RandomProjection", "Custom", "RandomProjection-auto"][int(rng.integers(0, 8))]
+        if kind == "RandomProjection-auto":
+            # the documented "auto": the Johnson-Lindenstrauss dimension for n sensors must fit into the number of examples
+            n = int(rng.integers(2, 6))
+            rows = int(rng.integers(45, 70))
         lowrank = rng.random() < (0.6 if kind.startswith("SVD") else 0.3) and min(n, rows) >= 2
         if lowrank:
             r0 = int(rng.integers(1, min(n, rows)))
@@ -51,20 +55,36 @@ def run(chk):
             bad_scaled = True
         if kind == "Identity":
             nb = None if rng.random() < 0.4 else int(rng.integers(1, rows + 1))
+            if nb is not None and rng.random() < 0.15:
+                nb = rows + int(rng.integers(1, 3))           # more modes than examples: to be rejected, or at least consistent
+                chk.count("modes-beyond-limit:Identity")
             mk = lambda: Identity(n_basis_modes=nb)
         elif kind.startswith("SVD"):
             hi = min(n, rows) - (1 if kind == "SVD-arpack" else 0)
             if hi < 1:
                 continue
             nb = int(rng.integers(1, hi + 1))
+            if rng.random() < 0.3:
+                # more modes than features and/or examples: to be rejected, or at least consistent
+                nb = int(rng.integers(min(n, rows) + 1, max(n, rows) + 3))
+                chk.count("modes-beyond-limit:SVD")
             mk = (lambda: SVD(n_basis_modes=nb, random_state=0)) if kind == "SVD" else (lambda: SVD(n_basis_modes=nb, algorithm="arpack", random_state=0))
+        elif kind == "RandomProjection-auto":
+            nb = "auto"
+            mk = lambda: RandomProjection(n_basis_modes="auto", eps=0.99, random_state=7)
         elif kind == "RandomProjection":
             nb = int(rng.integers(1, 6)) if not bad_scaled else max(2, min(rows, n) - int(rng.integers(0, 2)))      # as many modes as the data can carry
             mk = lambda: RandomProjection(n_basis_modes=nb, random_state=7)
         else:
             nb = int(rng.integers(1, n + 1))
-            Uc = rng.integers(-16, 17, size=(n, nb + int(rng.integers(0, 3)))) / 4.0
-            mk = lambda: Custom(Uc, n_basis_modes=nb)
+            ucols = nb + int(rng.integers(0, 3)) if rng.random() < 0.65 else int(rng.integers(1, nb + 1)) - (1 if nb > 1 else 0) or 1
+            custom_default = rng.random() < 0.25          # leave n_basis_modes to the constructor (10)
+            if custom_default:
+                nb = 10
+                ucols = int(rng.integers(1, 14))
+            Uc = rng.integers(-16, 17, size=(n, ucols)) / 4.0
+            mk = (lambda: Custom(Uc)) if custom_default else (lambda: Custom(Uc, n_basis_modes=nb))
+            chk.count("custom:" + ("narrow" if ucols < nb else "wide-enough"))
         case = {"basis": kind, "n_basis_modes": nb, "X": X.tolist(), "low_rank": lowrank}
         try:
             # a bystander of the same class, fitted on other data of the same shape: whatever it is asked later must not show up in b
@@ -76,8 +96,26 @@ def run(chk):
             impl.quiet(b.fit, X) if kind != "Custom" else b.fit()
         except Exception as e:
             chk.count("fit-rejected:" + type(e).__name__)
+            if kind == "Custom":
+                coq(f"match custom_fit {C.cqmat(q(Uc))} {Uc.shape[1]} {nb} with None => {'true' if isinstance(e, ValueError) else 'false'} | Some _ => false end",
+                    {**case, "what": f"Custom.fit raised {type(e).__name__} ({Uc.shape[1]} columns, {nb} modes)"})
             continue
-        avail = int(b.n_basis_modes)
+        if kind == "Custom":
+            coq(f"match custom_fit {C.cqmat(q(Uc))} {Uc.shape[1]} {nb} with Some (M, a) => Nat.eqb a {int(b.n_basis_modes)}%nat && check_close 0 {n} {nb} M {C.cqmat(q(np.array(b.basis_matrix_)))} | None => false end",
+                {**case, "what": f"Custom.fit accepted ({Uc.shape[1]} columns, {nb} modes)"})
+        try:
+            avail = int(b.n_basis_modes)
+        except Exception:
+            chk.case(case, nontrivial=True)
+            chk.violation("impl", "n-basis-modes-not-a-count", f"{kind}: after fit, n_basis_modes is {b.n_basis_modes!r}, not the number of retained modes", case)
+            continue
+        if kind == "RandomProjection-auto":
+            import math
+            jl = int(4 * math.log(n) / (0.99 ** 2 / 2 - 0.99 ** 3 / 3))
+            if avail != jl:
+                chk.violation("impl", "auto-mode-count", f"RandomProjection('auto', eps=0.99) on {n} sensors retains {avail} modes, Johnson-Lindenstrauss gives {jl}", case)
+            kind = "RandomProjection"
+            case["basis"] = "RandomProjection(auto)"
         if by is not None:
             try:
                 for kb in range(1, int(by.n_basis_modes) + 1):
@@ -184,6 +222,20 @@ def run(chk):
         else:
             if not np.array_equal(full, Uc[:, :nb]):
                 chk.violation("impl", "custom-not-prefix", "Custom basis is not the first n_basis_modes columns of the supplied matrix", case)
+        # ---- the caller's later edits of ITS training array must not reach the fitted basis
+        if kind != "Custom":
+            try:
+                Xa = np.array(X, dtype=float)
+                b2 = mk()
+                impl.quiet(b2.fit, Xa)
+                before = np.array(b2.matrix_representation(), copy=True)
+                Xa *= -3.0
+                Xa += 1.0
+                if not np.array_equal(before, np.array(b2.matrix_representation())):
+                    chk.violation("impl", "basis-aliases-training-data", f"{kind}: editing the training array in place after fit changed matrix_representation()", case)
+                chk.count("training_data_edited_after_fit")
+            except Exception:
+                pass
     files = []
     for i in range(0, len(exprs), 40):
         body = ("From Coq Require Import List Arith ZArith QArith Qcanon Bool. Import ListNotations.\nFrom PS Require Import LA.Sums LA.Gram Basis.Basis.\n"
